@@ -42,3 +42,264 @@ pub fn noise_frames(seed: u64, len: usize, amp: f32) -> Vec<Frame> {
 	let mut r = crate::util::Rng::new(seed);
 	(0..len).map(|_| Frame::new(r.noise() * amp, r.noise() * amp)).collect()
 }
+
+// ---------------------------------------------------------------- effect specifications
+
+use kira::effect::compressor::CompressorBuilder;
+use kira::effect::delay::DelayBuilder;
+use kira::effect::distortion::{DistortionBuilder, DistortionKind};
+use kira::effect::eq_filter::{EqFilterBuilder, EqFilterKind};
+use kira::effect::filter::{FilterBuilder, FilterMode};
+use kira::effect::panning_control::PanningControlBuilder;
+use kira::effect::reverb::ReverbBuilder;
+use kira::effect::volume_control::VolumeControlBuilder;
+use kira::effect::{Effect, EffectBuilder};
+use kira::info::{Info, MockInfoBuilder};
+use kira::{Decibels, Mix, Panning, Value};
+use std::time::Duration;
+
+use crate::util::Rng;
+
+/// A built-in effect with fixed parameters; can build any number of fresh instances.
+#[derive(Clone, Debug, PartialEq)]
+pub enum FxSpec {
+	Filter { mode: FilterMode, cutoff: f64, resonance: f64, mix: f32 },
+	Eq { kind: EqFilterKind, freq: f64, gain_db: f32, q: f64 },
+	Delay { time_s: f64, feedback_db: f32, mix: f32, inner: Vec<FxSpec> },
+	Reverb { feedback: f64, damping: f64, width: f64, mix: f32 },
+	Compressor { threshold: f64, ratio: f64, attack_s: f64, release_s: f64, makeup_db: f32, mix: f32 },
+	Distortion { kind: DistortionKind, drive_db: f32, mix: f32 },
+	Volume { db: f32 },
+	Panning { p: f32 },
+}
+
+pub const SAMPLE_RATES: [u32; 8] = [8000, 11025, 22050, 44100, 48000, 88200, 96000, 192000];
+
+fn edge_or(r: &mut Rng, edges: &[f64], lo: f64, hi: f64) -> f64 {
+	if r.chance(0.3) {
+		*r.pick(edges)
+	} else {
+		r.f64_in(lo, hi)
+	}
+}
+
+impl FxSpec {
+	pub fn kind_name(&self) -> &'static str {
+		match self {
+			FxSpec::Filter { .. } => "filter",
+			FxSpec::Eq { .. } => "eq",
+			FxSpec::Delay { .. } => "delay",
+			FxSpec::Reverb { .. } => "reverb",
+			FxSpec::Compressor { .. } => "compressor",
+			FxSpec::Distortion { .. } => "distortion",
+			FxSpec::Volume { .. } => "volume",
+			FxSpec::Panning { .. } => "panning",
+		}
+	}
+
+	pub fn build(&self) -> Box<dyn Effect> {
+		match self.clone() {
+			FxSpec::Filter { mode, cutoff, resonance, mix } => FilterBuilder::new().mode(mode).cutoff(cutoff).resonance(resonance).mix(Mix(mix)).build().0,
+			FxSpec::Eq { kind, freq, gain_db, q } => EqFilterBuilder::new(kind, freq, Decibels(gain_db), q).build().0,
+			FxSpec::Delay { time_s, feedback_db, mix, inner } => {
+				let mut b = DelayBuilder::new().delay_time(Duration::from_secs_f64(time_s)).feedback(Decibels(feedback_db)).mix(Mix(mix));
+				for i in inner {
+					b = b.with_feedback_effect(BuiltFx(i.build()));
+				}
+				b.build().0
+			}
+			FxSpec::Reverb { feedback, damping, width, mix } => ReverbBuilder::new().feedback(feedback).damping(damping).stereo_width(width).mix(Mix(mix)).build().0,
+			FxSpec::Compressor { threshold, ratio, attack_s, release_s, makeup_db, mix } => CompressorBuilder::new()
+				.threshold(threshold)
+				.ratio(ratio)
+				.attack_duration(Duration::from_secs_f64(attack_s))
+				.release_duration(Duration::from_secs_f64(release_s))
+				.makeup_gain(Decibels(makeup_db))
+				.mix(Mix(mix))
+				.build()
+				.0,
+			FxSpec::Distortion { kind, drive_db, mix } => DistortionBuilder::new().kind(kind).drive(Decibels(drive_db)).mix(Mix(mix)).build().0,
+			FxSpec::Volume { db } => VolumeControlBuilder::new(Decibels(db)).build().0,
+			FxSpec::Panning { p } => PanningControlBuilder(Value::Fixed(Panning(p))).build().0,
+		}
+	}
+
+	/// superposition and scaling are claimed for these
+	pub fn linear(&self) -> bool {
+		match self {
+			FxSpec::Filter { .. } | FxSpec::Eq { .. } | FxSpec::Reverb { .. } | FxSpec::Volume { .. } | FxSpec::Panning { .. } => true,
+			FxSpec::Delay { inner, .. } => inner.iter().all(|i| i.linear()),
+			_ => false,
+		}
+	}
+
+	pub fn recursive(&self) -> bool {
+		!matches!(self, FxSpec::Volume { .. } | FxSpec::Panning { .. } | FxSpec::Distortion { .. })
+	}
+
+	/// The setting the property calls "fully dry" (or the neutral setting of effects without a mix).
+	pub fn make_dry(&mut self) {
+		match self {
+			FxSpec::Filter { mix, .. } | FxSpec::Delay { mix, .. } | FxSpec::Reverb { mix, .. } | FxSpec::Compressor { mix, .. } | FxSpec::Distortion { mix, .. } => *mix = 0.0,
+			FxSpec::Eq { gain_db, .. } => *gain_db = 0.0,
+			FxSpec::Volume { db } => *db = 0.0,
+			FxSpec::Panning { p } => *p = 0.0,
+		}
+	}
+
+	/// Trigger classes of listed known findings (see known_findings.json)
+	pub fn known_trigger(&self, sr: u32) -> Option<&'static str> {
+		match self {
+			FxSpec::Distortion { drive_db, .. } if *drive_db <= -60.0 => Some("C13.distortion_drive_silence"),
+			FxSpec::Delay { time_s, inner, .. } => {
+				// what kira computes: (Duration (ns-quantised) * sample rate) truncated to whole frames
+				if (Duration::from_secs_f64(*time_s).as_secs_f64() * sr as f64) as usize == 0 {
+					return Some("C13.delay_shorter_than_one_frame");
+				}
+				inner.iter().find_map(|i| i.known_trigger(sr))
+			}
+			_ => None,
+		}
+	}
+
+	/// Conservative upper bound (dB) of the gain this effect can apply at any frequency; used to keep
+	/// the loop gain of a delay's feedback path at or below unity (a loop gain above 0 dB grows without
+	/// bound by construction; that is the user's setting, not a defect, and is not generated).
+	pub fn gain_bound_db(&self) -> f64 {
+		let lin = |db: f64| 10f64.powf(db / 20.0);
+		let db = |x: f64| 20.0 * x.max(1e-12).log10();
+		match self {
+			FxSpec::Filter { resonance, mix, .. } => {
+				let k = 2.0 - 1.9 * resonance.clamp(0.0, 1.0);
+				let m = (*mix as f64).clamp(0.0, 1.0);
+				db(m.sqrt() * (1.0 + 2.0 / k) + (1.0 - m).sqrt())
+			}
+			// high Q = resonant peak of about Q times the shelf/bell gain
+			FxSpec::Eq { gain_db, q, .. } => (*gain_db as f64).abs().max(0.0) + db(1.0 + q.max(0.01)) + 6.0,
+			FxSpec::Delay { feedback_db, mix, inner, .. } => {
+				let inner_db: f64 = inner.iter().map(|i| i.gain_bound_db()).sum();
+				let loop_gain = lin(*feedback_db as f64 + inner_db);
+				let m = (*mix as f64).clamp(0.0, 1.0);
+				if loop_gain >= 0.98 {
+					200.0
+				} else {
+					db(m.sqrt() * lin(inner_db) / (1.0 - loop_gain) + (1.0 - m).sqrt())
+				}
+			}
+			FxSpec::Reverb { feedback, mix, damping, .. } => {
+				let m = (*mix as f64).clamp(0.0, 1.0);
+				let fb = feedback.clamp(0.0, 0.999);
+				let _ = damping;
+				// 8 combs x input gain 0.015 x 2 channels summed, comb gain <= 1/(1-fb), 4 all-pass stages <= 3 each
+				db(m.sqrt() * (8.0 * 0.03 / (1.0 - fb)) * 81.0 + (1.0 - m).sqrt())
+			}
+			FxSpec::Compressor { ratio, threshold, makeup_db, .. } => {
+				let expand = if *ratio < 1.0 { (-threshold).max(0.0) * (1.0 / ratio - 1.0) } else { 0.0 };
+				(*makeup_db as f64).max(0.0) + expand + 3.1
+			}
+			FxSpec::Distortion { .. } => 3.1,
+			FxSpec::Volume { db: v } => (*v as f64).max(-200.0),
+			FxSpec::Panning { .. } => 3.1,
+		}
+	}
+
+	/// Random effect over domain D0 ∪ B of DESIGN.md §2.3.
+	pub fn gen(r: &mut Rng, sr: u32, depth: u32) -> FxSpec {
+		let nyq = sr as f64 / 2.0;
+		let mix = |r: &mut Rng| edge_or(r, &[0.0, 1.0, 0.5, -0.5, 1.5], 0.0, 1.0) as f32;
+		match r.below(if depth == 0 { 8 } else { 7 }) {
+			0 => FxSpec::Filter {
+				mode: *r.pick(&[FilterMode::LowPass, FilterMode::BandPass, FilterMode::HighPass, FilterMode::Notch]),
+				cutoff: if r.chance(0.3) { *r.pick(&[1.0, 20.0, nyq, 2.0 * nyq, 20000.0, 0.0]) } else { r.log_in(1.0, 2.0 * nyq) },
+				resonance: edge_or(r, &[0.0, 1.0, -0.5, 1.5], 0.0, 1.0),
+				mix: mix(r),
+			},
+			1 => FxSpec::Eq {
+				kind: *r.pick(&[EqFilterKind::Bell, EqFilterKind::LowShelf, EqFilterKind::HighShelf]),
+				freq: if r.chance(0.3) { *r.pick(&[1.0, 20.0, nyq, 2.0 * nyq, 0.0]) } else { r.log_in(1.0, 2.0 * nyq) },
+				gain_db: edge_or(r, &[0.0, -24.0, 24.0, -60.0], -24.0, 24.0) as f32,
+				q: edge_or(r, &[0.0, -1.0, 0.01, 20.0, 0.707], 0.05, 20.0),
+			},
+			2 => FxSpec::Reverb {
+				feedback: edge_or(r, &[0.0, 1.0, 0.9], 0.0, 1.0),
+				damping: edge_or(r, &[0.0, 1.0, 0.1], 0.0, 1.0),
+				width: edge_or(r, &[0.0, 1.0], 0.0, 1.0),
+				mix: mix(r),
+			},
+			3 => FxSpec::Compressor {
+				threshold: edge_or(r, &[0.0, -60.0, -6.0], -60.0, 0.0),
+				// expander ratios below 0.25 turn a 60 dB overshoot into > +180 dB of gain (f32 overflow by
+				// construction); they are outside the explored domain
+				// (an expander inside a feedback loop is a level-dependent gain > 1: runaway by construction)
+				ratio: if depth > 0 || r.chance(0.8) { edge_or(r, &[1.0, 100.0, 2.0, 4.0], 1.0, 100.0) } else { r.f64_in(0.25, 1.0) },
+				attack_s: edge_or(r, &[0.0, 0.01, 1.0], 0.0, 0.5),
+				release_s: edge_or(r, &[0.0, 0.1, 1.0], 0.0, 1.0),
+				makeup_db: edge_or(r, &[0.0, 6.0, -6.0], -12.0, 12.0) as f32,
+				mix: mix(r),
+			},
+			4 => FxSpec::Distortion {
+				kind: *r.pick(&[DistortionKind::HardClip, DistortionKind::SoftClip]),
+				drive_db: edge_or(r, &[0.0, -60.0, 24.0, -80.0], -40.0, 40.0) as f32,
+				mix: mix(r),
+			},
+			5 => FxSpec::Volume {
+				db: edge_or(r, &[0.0, -60.0, 24.0, -80.0, 6.0], -80.0, 24.0) as f32,
+			},
+			6 => FxSpec::Panning {
+				p: edge_or(r, &[0.0, -1.0, 1.0, -1.5, 1.5], -1.0, 1.0) as f32,
+			},
+			_ => {
+				let n_inner = r.below(3) as usize;
+				let inner: Vec<FxSpec> = (0..n_inner).map(|_| FxSpec::gen(r, sr, depth + 1)).collect();
+				let inner_db: f64 = inner.iter().map(|i| i.gain_bound_db()).sum();
+				let mut feedback_db = edge_or(r, &[0.0, -60.0, -6.0, -80.0], -40.0, 0.0);
+				if !inner.is_empty() {
+					// keep the loop gain (feedback x inner effects) below unity
+					feedback_db = feedback_db.min(-inner_db - 1.0);
+				}
+				FxSpec::Delay {
+					time_s: if r.chance(0.25) { *r.pick(&[0.0, 1.0 / sr as f64, 0.5 / sr as f64, 0.01, 1e-4]) } else { r.log_in(2.0 / sr as f64, 0.25) },
+					feedback_db: feedback_db as f32,
+					mix: mix(r),
+					inner,
+				}
+			}
+		}
+	}
+}
+
+/// Wraps an already built effect as an `EffectBuilder` (used to nest effects in a delay's feedback loop).
+pub struct BuiltFx(pub Box<dyn Effect>);
+impl EffectBuilder for BuiltFx {
+	type Handle = ();
+	fn build(self) -> (Box<dyn Effect>, ()) {
+		(self.0, ())
+	}
+}
+
+pub fn mock_info() -> Info<'static> {
+	MockInfoBuilder::new().build()
+}
+
+/// Drives a fresh effect instance: init(sr, ibs), then on_start_processing + process over slices
+/// given by `partition` (cycled; every slice is clamped to 1..=ibs as the init contract requires).
+pub fn run_effect(spec: &FxSpec, sr: u32, ibs: usize, input: &[Frame], partition: &[usize]) -> Vec<Frame> {
+	let mut fx = spec.build();
+	fx.init(sr, ibs);
+	let info = mock_info();
+	let dt = 1.0 / sr as f64;
+	let mut out = input.to_vec();
+	let mut pos = 0;
+	let mut k = 0;
+	while pos < out.len() {
+		let n = partition[k % partition.len()].clamp(1, ibs).min(out.len() - pos);
+		k += 1;
+		fx.on_start_processing();
+		fx.process(&mut out[pos..pos + n], dt, &info);
+		pos += n;
+		if k % 64 == 0 {
+			crate::monitors::bump();
+		}
+	}
+	out
+}
